@@ -23,5 +23,8 @@ CONSTANTS
   DevEncCheckIgnoresStrict = FALSE
   DevCasefoldOpaqueHashFails = FALSE
   DevDupFoldsPlainDir = FALSE
+  BSz = 2
+  SizeClasses = {"end"}
+  DevSizeLimitInclusive = FALSE
   DevInodeUninitWipes = FALSE
 CHECK_DEADLOCK FALSE
